@@ -405,8 +405,9 @@ def run_r4(ctx, rule):
         n_at += 1
         sy = sym(f)
         pos = sy.operand(t["args"][1])
-        ok = pos[0] == "call" and norm(pos[2]) == DR + "mark"
-        rule.check(ok, "%s/give_up_at-position" % norm(f.id), "give_up_at in %s reports at reader.mark() (got %s)" % (short(f.id), sy.show(pos)), f.loc(bb))
+        # (give_up_at(reader.position(), ..) is give_up(..): the error is raised at the cursor)
+        ok = pos[0] == "call" and norm(pos[2]) in (DR + "mark", DR + "position")
+        rule.check(ok, "%s/give_up_at-position" % norm(f.id), "give_up_at in %s reports at reader.mark() or at the cursor (got %s)" % (short(f.id), sy.show(pos)), f.loc(bb))
     n_cur = 0
     for f, bb, t in util.calls_to(facts, lambda n: n == LR + "give_up_at_cold"):
         if norm(f.id) in (LR + "give_up", LR + "give_up_at"):
